@@ -34,6 +34,8 @@ type ftr struct {
 	recv types.Object
 	end  func() string            // value of the function when control reaches the end of the body (nil: error)
 	ret  func(rs []string) string // how a `return rs…` is rendered (nil: plain tuple)
+	// expression-site translation (exprs.go): untranslatable sub-expressions of basic type become parameters
+	leaves *[]leaf
 }
 
 type unsupported struct{ msg string }
@@ -176,6 +178,11 @@ func (t *ftr) expr(e ast.Expr) string {
 	if ok && tv.Value != nil {
 		return t.constLit(e, tv.Value, tv.Type)
 	}
+	if t.leaves != nil {
+		if name, ok := t.leafFor(e); ok {
+			return name
+		}
+	}
 	switch x := e.(type) {
 	case *ast.ParenExpr:
 		return t.expr(x.X)
@@ -284,6 +291,28 @@ func (t *ftr) binary(x *ast.BinaryExpr) string {
 }
 
 func (t *ftr) call(x *ast.CallExpr) string {
+	// receiver-field access of a translated method: atomic load, len(m.f), m.g() of a listed method
+	if t.recv != nil {
+		if sel, _, store, ok := t.atomicAccess(x); ok && !store {
+			f, _ := t.recvField(sel)
+			t.leanType(x, t.typeOf(x))
+			return f
+		}
+		if name, ok := t.recvLen(x); ok {
+			return (&mfield{name: name}).lean(t.recvIdentName())
+		}
+		if key, ok := t.recvMethodCall(x); ok {
+			var parts []string
+			for _, f := range methodFieldCache[key] {
+				parts = append(parts, fmt.Sprintf("(%s := %s)", f.lean(methodRecvName[key]), f.lean(t.recvIdentName())))
+			}
+			for _, a := range x.Args {
+				parts = append(parts, t.expr(a))
+			}
+			name := strings.ReplaceAll(key, ".", "_")
+			return "(" + leanName(name) + " " + strings.Join(parts, " ") + ")"
+		}
+	}
 	// conversion?
 	if tv, ok := t.c.info.Types[x.Fun]; ok && tv.IsType() {
 		if len(x.Args) != 1 {
@@ -391,6 +420,12 @@ func (t *ftr) stmts(list []ast.Stmt, ind string) string {
 	case *ast.ExprStmt:
 		if t.isRecvMutexCall(x.X) {
 			return t.stmts(rest, ind)
+		}
+		if call, ok := x.X.(*ast.CallExpr); ok && t.recv != nil {
+			if sel, val, store, ok := t.atomicAccess(call); ok && store {
+				f, _ := t.recvField(sel)
+				return fmt.Sprintf("%slet %s : %s := %s\n", ind, f, t.leanType(sel, t.typeOf(sel)), t.expr(val)) + t.stmts(rest, ind)
+			}
 		}
 	case *ast.DeferStmt:
 		if t.isRecvMutexCall(x.Call) {
@@ -555,7 +590,7 @@ func (c *ctx) genFuncs() string {
 	var b strings.Builder
 	b.WriteString("-- GENERATED by /verif/go/extract from /repo on every run. Do not edit; not committed.\n")
 	b.WriteString("-- Lean translations of the listed straight-line Go functions (uintN ↦ BitVec N, int ↦ Int, float64 ↦ Rat and Float).\n")
-	b.WriteString("import SctpVerif.Gen.Consts\nimport SctpVerif.GenPrelude\n\nnamespace Gen\n\n")
+	b.WriteString("import SctpVerif.Gen.Consts\nimport SctpVerif.GenPrelude\n\nset_option linter.unusedVariables false\n\nnamespace Gen\n\n")
 	for _, name := range listed {
 		fd, ok := c.funcs[name]
 		if !ok {
@@ -586,6 +621,7 @@ func (c *ctx) genFuncs() string {
 		}
 	}
 	c.genMethods(&b)
+	c.genExprSites(&b)
 	b.WriteString("end Gen\n")
 	return b.String()
 }
